@@ -6,7 +6,8 @@
    database only ever is [apply_all] of a prefix of the batch list) is built into [crash]; it is the explicit
    premise [backend_atomic] of C02_crash_prefix_backend (Node/Backend.v), refuted without it, and checked on
    the real backends by the harness. *)
-From NG Require Import Common.Tactics Node.Crash Node.CrashProofs Node.Stages Node.StagesProofs Node.StagesWitness Node.StagesMain Node.CrashGC Node.CrashGCProofs Node.CrashGCWitness Node.ResetExact Node.SyncRestore Node.SyncRestoreProofs Node.StorageSync Node.StorageSyncProofs Node.BlockCache Node.Backend Node.ResetPages.
+From NG Require Import Common.Tactics Node.Crash Node.CrashProofs Node.Stages Node.StagesProofs Node.StagesWitness Node.StagesMain Node.CrashGC Node.CrashGCProofs Node.CrashGCWitness Node.ResetExact Node.SyncRestore Node.SyncRestoreProofs Node.StorageSync Node.StorageSyncProofs Node.BlockCache Node.Backend.
+From NG Require Node.ResetPages.
 Open Scope N_scope.
 
 Section C02.
@@ -278,25 +279,25 @@ Proof. exact failed_flush_wrong_merge_refuted. Qed.
 Print Assumptions C02_failed_flush_wrong_merge_refuted.
 
 (* ---- Reset at the header-hash PAGE boundaries (Node/ResetPages.v) ----
-   Pages are stored under the index of their first hash once complete; Reset(h) deletes from the page of h+1 forwards.
+   Pages are ResetPages.stored under the index of their first hash once complete; Reset(h) deletes from the page of h+1 forwards.
    For every page size, chain and target: the page start-up needs at header height h (the last complete one) is still
    there, and exactly the pages of a node that only ever saw headers 0..h remain. *)
 Theorem C02_reset_keeps_previous_page : forall ps c h f,
-  0 < ps -> h <= c -> previous ps h = Some f -> after kept ps c h f = true.
-Proof. exact reset_keeps_previous_page. Qed.
+  0 < ps -> h <= c -> ResetPages.previous ps h = Some f -> ResetPages.after ResetPages.kept ps c h f = true.
+Proof. exact ResetPages.reset_keeps_previous_page. Qed.
 Print Assumptions C02_reset_keeps_previous_page.
 
-Theorem C02_reset_pages_exact : forall ps c h f, 0 < ps -> h <= c -> after kept ps c h f = stored ps h f.
-Proof. exact reset_pages_exact. Qed.
+Theorem C02_reset_pages_exact : forall ps c h f, 0 < ps -> h <= c -> ResetPages.after ResetPages.kept ps c h f = ResetPages.stored ps h f.
+Proof. exact ResetPages.reset_pages_exact. Qed.
 Print Assumptions C02_reset_pages_exact.
 
 (* refuted for the walk that stops one page late, exactly at h+1 = 0 (mod page size) - Reset(1999) of a chain of 2013
    loses page 0; Reset(1998) and Reset(2000) do not show it - and for the deletion that starts one page too far *)
 Theorem C02_reset_keeps_previous_page_refuted :
-  previous 2000 1999 = Some 0 /\ after kept_off 2000 2013 1999 0 = false /\ after kept 2000 2013 1999 0 = true /\
-  previous 2000 1998 = None /\ previous 2000 2000 = Some 0 /\ after kept_off 2000 2013 2000 0 = true /\
-  after kept_next 2000 4015 3000 2000 = true /\ stored 2000 3000 2000 = false.
-Proof. exact reset_keeps_previous_page_refuted. Qed.
+  ResetPages.previous 2000 1999 = Some 0 /\ ResetPages.after ResetPages.kept_off 2000 2013 1999 0 = false /\ ResetPages.after ResetPages.kept 2000 2013 1999 0 = true /\
+  ResetPages.previous 2000 1998 = None /\ ResetPages.previous 2000 2000 = Some 0 /\ ResetPages.after ResetPages.kept_off 2000 2013 2000 0 = true /\
+  ResetPages.after ResetPages.kept_next 2000 4015 3000 2000 = true /\ ResetPages.stored 2000 3000 2000 = false.
+Proof. exact ResetPages.reset_keeps_previous_page_refuted. Qed.
 Print Assumptions C02_reset_keeps_previous_page_refuted.
 
 (* ---- ONE change set inside the persistent backend (Node/Backend.v) ---- *)
